@@ -160,6 +160,7 @@ def run(chk, tier, seed, replay=None):
     # layers in subprocesses, with names that differ only where one has a dot
     prof_d = dict(prof, dotted=1.0, opts=lambda r: {'verbose': 1, 'j': r.choice([2, 3])},
                   tests_per_layer=(1, 2), sweep=False, big=0.0)
+
     cases += corecheck.gen_cases(rng, [g for g in graphs if 3 <= g['n'] <= 4], 14 if tier == 'quick' else 150, prof_d, 'hd')
     for c in cases:
         cl = list(c['world']['classes'].items())
